@@ -245,6 +245,23 @@ func plantedSpecs() []plantedSpec {
 				return d
 			}})
 		}
+		// a body parameter that (oddly, but loadably) carries simple-schema keywords of its own next to its schema
+		out = append(out, plantedSpec{"param/" + lvl + "/body-with-own-keywords", func(kind string, n int, path, method, key string) jx.Obj {
+			d := SkeletonDoc(path, method)
+			p := jx.Obj{"name": "b", "in": "body", "schema": jx.Obj{"type": "object", "properties": jx.Obj{"v": leafSchema(kind, n)}}}
+			switch kind {
+			case "pattern":
+				p["pattern"] = "^body" + strconv.Itoa(n)
+				p["items"] = jx.Obj{"type": "string", "pattern": "^bodyitem" + strconv.Itoa(n)}
+			case "enum":
+				p["enum"] = jx.Arr{"body" + strconv.Itoa(n)}
+				p["items"] = jx.Obj{"type": "string", "enum": jx.Arr{"bodyitem" + strconv.Itoa(n)}}
+			default:
+				p["items"] = jx.Obj{"$ref": "#/definitions/target1"}
+			}
+			put(d, path, method, key, p)
+			return d
+		}})
 	}
 	for _, rk := range []string{"shared", "default", "code"} {
 		rk := rk
